@@ -163,7 +163,7 @@ def snap_sampler(mod, prefix, groups=SAMPLER_GROUPS):
         if mod.effect is None:
             out.append((prefix + "effect", None))
         else:
-            out += snap_module(mod.effect.module, prefix=prefix + "effect.", groups=("type", "common", "midi", "ctl", "opt", "cmid", "payload"))
+            out += snap_module(mod.effect.module, prefix=prefix + "effect.", groups=("type", "common_synth", "midi", "ctl", "opt", "cmid", "payload"))  # a synth: x/y/layer/visualization are not stored
     return out
 
 
